@@ -26,10 +26,11 @@ EXTENDS AELexer, AEHTMLTok, AETables, TLC, Json
 CONSTANTS Use,        \* set of fragment indices
           MaxDoc,     \* safety bound on the document length (the fix-point must be reached below it)
           Fmt,        \* file format: "HTML", "JS", "CSS" or "JSON"
+          RootInView, \* TRUE: product states behind different (classes of) root causes are kept apart
           MaxDiv      \* how many fragments exploration continues after the FIRST loss of strict agreement (0: no bound)
 
-VARIABLES lex, ref, doc, broken, edge, root, div
-vars == <<lex, ref, doc, broken, edge, root, div>>
+VARIABLES lex, ref, doc, broken, edge, root, div, rc
+vars == <<lex, ref, doc, broken, edge, root, div, rc>>
 
 Class(l, h) == <<LCtxAtHole(l), LURLAtHole(l), Slot(h), SlotKind(h)>>
 CompatibleAt(l, h) == Compatible(LCtxAtHole(l), LURLAtHole(l), Slot(h), SlotKind(h))
@@ -45,7 +46,14 @@ LCtxNum(c) == CASE c = "HTML" -> 1 [] c = "CSS" -> 2 [] c = "JS" -> 3 [] c = "JS
 Succ(l) == [f \in 1..Len(Frags) |-> IF f \in Use THEN LET l2 == LRun(l, Frags[f]) IN 10 * LCtxNum(LCtxAtHole(l2)) + LURLAtHole(l2) ELSE -1]
 PrintSucc == (div = 0 /\ ~broken) => PrintT(<<"SUCC", doc, Succ(lex)>>)
 
-Init == lex = L0F(Fmt) /\ ref = HNorm(HInit(Fmt)) /\ doc = <<>> /\ broken = FALSE /\ edge = <<>> /\ root = <<>> /\ div = 0
+\* class of a root cause: the reference slot the machines are in after the breaking edge, for the
+\* design-level causes; without it in the VIEW a product state behind one root cause hides the same
+\* product state behind another one (and the second cause would get no witness of its consequences)
+RootClass(slot) == IF ~RootInView THEN ""
+                   ELSE IF slot \in {"comment", "bogus-comment", "rcdata", "rawtext", "plaintext", "js-template", "js-regex", "css-comment", "css-url"}
+                   THEN slot ELSE "other"
+
+Init == lex = L0F(Fmt) /\ ref = HNorm(HInit(Fmt)) /\ doc = <<>> /\ broken = FALSE /\ edge = <<>> /\ root = <<>> /\ div = 0 /\ rc = ""
 
 Step(f) ==
   LET l2 == LRun(lex, Frags[f])
@@ -57,11 +65,12 @@ Step(f) ==
      /\ broken' = (~ok /\ ~AgreeAt(l2, h2))
      /\ edge' = IF ok \/ AgreeAt(l2, h2) THEN <<>> ELSE Class(lex, ref) \o <<f>>
      /\ root' = IF root # <<>> THEN root ELSE IF AgreeAt(l2, h2) THEN <<>> ELSE Class(lex, ref) \o <<f>>
+     /\ rc' = IF div > 0 THEN rc ELSE IF AgreeAt(l2, h2) THEN "" ELSE RootClass(Slot(h2))
      /\ div' = IF div > 0 THEN (IF MaxDiv = 0 THEN 1 ELSE div + 1) ELSE IF AgreeAt(l2, h2) THEN 0 ELSE 1
 
 Next == ~broken /\ (MaxDiv = 0 \/ div < MaxDiv) /\ Len(doc) < MaxDoc /\ Slot(ref) # "undefined" /\ \E f \in Use : Step(f)
 
-View == <<lex, ref, broken, edge, div>>
+View == <<lex, ref, broken, edge, div, rc>>
 \* the fix-point was reached strictly below the bound (checked as an invariant: no state sits at the bound)
 BelowBound == Len(doc) < MaxDoc
 
